@@ -16,6 +16,16 @@ CHECKS = {
                  "suite (305 symbols, literal spot values) cannot; float rounding is bounded only syntactically (homogeneous rows).",
         "note": NOTE,
     },
+    "C02": {
+        "technique": "route normal forms over def-use terms (roles of source unit, target unit and value; lookup flags; exhaustive classification "
+                     "of returns); CFG dominance of the own-unit shortcut; backward slices of the quantity/category handed to re-expression constructors",
+        "level": "Every conversion route and every delegation site is enumerated: all routes compose frombase(target) o tobase(source) with the "
+                 "same lookup and un-swapped roles, container kind preserved, exponent route shaped root-convert-power; every higher route hands "
+                 "own unit / requested unit / value in the right roles (including the category default converted from the category's default "
+                 "unit); the own-unit shortcut dominates every conversion, simple and derived; every re-expression constructor receives the "
+                 "source's category or quantity. Three defects found by these rules were repaired in /repo.",
+        "note": NOTE,
+    },
     "C03": {
         "technique": "operation-table extraction (lambda operators and argument order) from the delegating database operations; def-use "
                      "(non-dependence) analysis of the exponent in unit matching; CFG must-pass-through of the value conversion before "
